@@ -347,6 +347,61 @@ def gen_fmt_lean(X):
     return "\n".join(lines) + "\n"
 
 
+LEXEMES = ["real_num", "int_num", "hex_num", "ansi_string", "regex_string", "mysql_doublequote_string", "ansi_ident",
+           "mysql_backtick_ident", "sqlserver_ident", "ident_w_dash", "simple_ident", "sqlserver_local_ident"]
+
+
+def extract_lexemes(X):
+    """the regular expressions behind the literal / identifier tokens, and the delimiter pre-pass"""
+    import mo_sql_parsing as M
+    import mo_sql_parsing.utils as U
+    from mo_sql_parsing import formatting as F
+
+    def find(o, depth=0):
+        out = []
+        rx = getattr(o, "regex", None)
+        if rx is not None and hasattr(rx, "pattern"):
+            out.append(rx.pattern)
+        e = getattr(o, "expr", None)
+        if e is not None and depth < 4:
+            out += find(e, depth + 1)
+        for e in getattr(o, "exprs", None) or []:
+            if depth < 4:
+                out += find(e, depth + 1)
+        return out
+
+    pats = []
+    for n in LEXEMES:
+        o = getattr(U, n, None)
+        if o is None:
+            X.problem("lexemes", "utils.%s is gone" % n)
+            continue
+        ps = find(o)
+        if not ps:
+            X.problem("lexemes", "no regular expression found behind utils.%s" % n)
+        pats.append((n, "|".join(ps)))
+    pats.append(("delimiter_pattern", M.delimiter_pattern.pattern))
+    pats.append(("delimiter_flags", str(int(M.delimiter_pattern.flags))))
+    pats.append(("VALID", F.VALID.pattern))
+    pats.append(("VALID_flags", str(int(F.VALID.flags))))
+    X.data["lex_patterns"] = pats
+
+
+def gen_lexemes_lean(X):
+    lines = [
+        "/- GENERATED by tools/extract.py from /repo's working tree — do not edit. -/",
+        "namespace MoSql.Gen",
+        "",
+        "/-- pattern strings of the token regular expressions, as compiled by the current source -/",
+        "def lexPatterns : List (String × String) := [",
+    ]
+    pats = X.data.get("lex_patterns", [])
+    for i, (n, p) in enumerate(pats):
+        lines.append("  (%s, %s)%s" % (lean_str(n), lean_str(p), "," if i + 1 < len(pats) else ""))
+    lines += ["]", "", "end MoSql.Gen"]
+    return "\n".join(lines) + "\n"
+
+
 def load_known():
     try:
         return json.load(open(os.path.join(VERIF, "known_findings.json")))["findings"]
@@ -369,6 +424,7 @@ def main():
                 X.problem("build", "%s(%r) raised %r" % (name, ac, e))
     extract_levels(X, rec)
     extract_formatter(X)
+    extract_lexemes(X)
 
     changed = []
     gen_dir = os.path.join(VERIF, "lean", "MoSql", "Gen")
@@ -376,6 +432,8 @@ def main():
         changed.append("Levels.lean")
     if write_if_changed(os.path.join(gen_dir, "FmtTable.lean"), gen_fmt_lean(X)):
         changed.append("FmtTable.lean")
+    if write_if_changed(os.path.join(gen_dir, "Lexemes.lean"), gen_lexemes_lean(X)):
+        changed.append("Lexemes.lean")
     X.data["problems"] = X.problems
     write_if_changed(os.path.join(VERIF, "build", "gen.json"), json.dumps(X.data, indent=1, sort_keys=True, default=str))
     print(json.dumps({"changed": changed, "problems": X.problems}))
